@@ -27,6 +27,7 @@ func checkC16(w *World, r *Report) {
 	r.Inv["roles"] = ri.Order
 	r.Inv["comm_ops"] = w.Comm().inventory()
 	livenessAll(w, r, "C16")
+	ruleOptionTable(w, r, "C16", map[string][3]string{"WithShutdownNotifier": {tPState, "shutdownNotifier", "param"}})
 	// every go target is known (a new goroutine kind must be classified)
 	for _, name := range ri.Order {
 		if name == clientRole {
